@@ -34,6 +34,10 @@ def _extras(rid, opts):
         return nb + 1, ns + 3
     if rid == 'Ast':
         return nb, ns
+    if rid == 'UserHtml':
+        return (nb + 2, ns + 2) if html_tokens else (nb + 1, ns + 1)
+    if rid == 'UserMarkdown':
+        return nb - 1 + 3, ns + 2
     raise ValueError(rid)
 
 
@@ -363,6 +367,7 @@ def random_history(rng, tier, fault_free=False, extra_docs=None):
     p_add = rng.choice([0.0, 0.15, 0.35])
     use_scheme = rng.random() < 0.3
     p_nest = 0.08 if rng.random() < 0.25 else 0.0
+    p_remove = 0.1 if rng.random() < 0.25 else 0.0
     early_fault = bool(kinds) and rng.random() < 0.34
     max_blocks = 40 if thorough and rng.random() < 0.15 else 12
     n_blocks = rng.randint(2, max_blocks)
@@ -423,14 +428,22 @@ def random_history(rng, tier, fault_free=False, extra_docs=None):
                                   'opts': {} if inner == 'Scheme' else W.OPTIONS[inner][rng.randrange(len(W.OPTIONS[inner]))],
                                   'docs': ['(+ 1 2)'] if inner == 'Scheme' else [doc() for _ in range(rng.randint(0, 2))]})
                     continue
+                if p_remove and rng.random() < p_remove:
+                    if rng.random() < 0.5:
+                        steps.append({'k': 'REMOVE', 'tok': W.BUILTIN_REMOVABLE_BLOCK[rng.randrange(len(W.BUILTIN_REMOVABLE_BLOCK))]})
+                        nb -= 1
+                    else:
+                        steps.append({'k': 'REMOVE', 'tok': W.BUILTIN_REMOVABLE_SPAN[rng.randrange(len(W.BUILTIN_REMOVABLE_SPAN))]})
+                        ns -= 1
+                    continue
                 if y < p_fault + p_add:
                     if rng.random() < 0.6:
                         steps.append({'k': 'ADD', 'tok': W.BENIGN_SPAN[rng.randrange(len(W.BENIGN_SPAN))],
-                                      'pos': rng.randint(0, ns - 1)})
+                                      'pos': rng.randint(0, max(ns - 1, 0))})
                         ns += 1
                     else:
                         steps.append({'k': 'ADD', 'tok': W.BENIGN_BLOCK[rng.randrange(len(W.BENIGN_BLOCK))],
-                                      'pos': rng.randint(0, nb)})
+                                      'pos': rng.randint(0, max(nb, 0))})
                         nb += 1
                     if rng.random() < 0.7:
                         steps.append({'k': 'RENDER', 'doc': D.PROBES['custom']})
